@@ -14,7 +14,7 @@ META = {
                    'CURRENT iterate -- for arbitrary (not assumed orthonormal) frames, real and complex, solvers solve/lu. (I + uniqueness contract) '
                    'fixed point: with b := A x* and x* as initial guess, the coordinates of x* in the current frame satisfy every micro system '
                    '(so a micro-solver with a unique solution returns them) and the returned train equals x*. (S) sweep schedule for repeats 1,2, '
-                   'result dims = rhs dims, ALS never raises a rank, MALS ranks <= max_rank on every forked path, inputs unchanged.',
+                   'result dims = rhs dims, ALS never raises a rank, MALS ranks <= max_rank on every forked path, inputs unchanged. Shapes with leading / trailing modes of size 1 (F-contiguous supercores) are part of the grid. NOT solver-decided, sampled by the validation run on random Hermitian positive-definite operators (scenario descent): energy-norm error <= that of the guess and non-increasing over repeats 1-3, exact solution returned, exactness at maximal ranks, both micro-solvers, real and complex.',
     'bounds': {'quick': 'orders 2-3 (ALS also order 1), mode size 2 (one size-1 mode shape), ranks of operator/rhs/guess in {1,2}, real and complex, '
                         'repeats 1-2, solver solve/lu',
                'thorough': 'adds order 4 and rank-3 guesses'},
